@@ -156,7 +156,7 @@ KSrcLeaves(k, t, n, pkg) ==
        [] OTHER          -> <<>>      \* param, twice
 \* type of field F of the parent struct of source n
 KFieldType(k, t) == IF k = "fieldptr" THEN (IF t = "*T1" THEN "T1" ELSE "S1") ELSE t
-KProg(t, k1, k2, place, used) ==
+KProg(t, k1, k2, place, used, al) ==
   LET tp   == IF place = "otherpkg" THEN "c" ELSE "a"       \* package of the types
       sp   == IF place = "otherpkg" THEN "b" ELSE "a"       \* package of source 1 and its set
       atoms == << TokIn("T1", tp), TokIn("T8", tp), TokIn("T9", tp),
@@ -166,7 +166,8 @@ KProg(t, k1, k2, place, used) ==
                   StructT("S1", tp, <<Fld("X", "T8")>>),
                   StructT("S2", tp, <<Fld("F", KFieldType(k1, t))>>),
                   StructT("S3", tp, <<Fld("F", KFieldType(k2, t))>>) >>
-      l1   == KSrcLeaves(k1, t, 1, sp)
+      l1raw == KSrcLeaves(k1, t, 1, sp)
+      l1   == IF al /\ l1raw # <<>> THEN [l1raw EXCEPT ![1].alias = TRUE] ELSE l1raw       \* source 1 spelled through a type alias
       l2   == KSrcLeaves(k2, t, 2, "a")
       cons == Func("P9", IF used THEN <<t>> ELSE <<>>, "T9", FALSE, FALSE)
       leaves == l1 \o l2 \o <<cons>>
@@ -186,17 +187,18 @@ KProg(t, k1, k2, place, used) ==
                   [] place = "inner"   -> <<ItS(1)>> \o ic
                   [] place = "deep"    -> <<ItS(2)>> \o i2 \o ic
                   [] place = "twice"   -> <<ItS(1), ItS(2)>> \o ic
-      key  == "K/" \o t \o "/" \o k1 \o "+" \o k2 \o "/" \o place \o "/" \o (IF used THEN "used" ELSE "unused")
+      key  == "K/" \o t \o "/" \o k1 \o "+" \o k2 \o "/" \o place \o "/" \o (IF used THEN "used" ELSE "unused") \o (IF al THEN "/alias" ELSE "")
   IN Prog(key, "K", atoms, leaves, sets, <<Inj("Inject", params, "T9", FALSE, FALSE, bitems)>>)
 KOrd(k) == CHOOSE i \in 1..8 : <<"func", "value", "struct", "ivalue", "bind", "field", "fieldptr", "param">>[i] = k
 FamilyK(p, types) ==
-  \E t \in types : \E k1 \in KKinds(t) : \E used \in BOOLEAN :
-     \/ \E k2 \in KKinds(t) : \E place \in KPlaces :
-          /\ KOrd(k1) <= KOrd(k2) \/ place \in {"nested", "deep", "otherpkg"}    \* unordered pair unless the placement is asymmetric
-          /\ k1 = "param" => place = "same"
-          /\ k2 = "param" => place \in {"same", "nested", "otherpkg"}
-          /\ p = KProg(t, k1, k2, place, used)
-     \/ k1 # "param" /\ p = KProg(t, k1, "twice", "twice", used)
+  \E t \in types : \E k1 \in KKinds(t) : \E used \in BOOLEAN : \E al \in BOOLEAN :
+     /\ al => k1 \in {"func", "value", "struct", "bind", "field", "fieldptr"}
+     /\ (\/ \E k2 \in KKinds(t) : \E place \in KPlaces :
+              /\ KOrd(k1) <= KOrd(k2) \/ place \in {"nested", "deep", "otherpkg"}    \* unordered pair unless the placement is asymmetric
+              /\ k1 = "param" => place = "same"
+              /\ k2 = "param" => place \in {"same", "nested", "otherpkg"}
+              /\ p = KProg(t, k1, k2, place, used, al)
+         \/ k1 # "param" /\ p = KProg(t, k1, "twice", "twice", used, al))
 
 (* ======================================================================== *)
 (* Family B (bindings).  C is a struct type with the marker method of the   *)
